@@ -40,10 +40,20 @@ Theorem C16_roundtrip_matrix : forall (b : Z) (m n : nat) (A : list (list D)),
   import D T d0 parse b (export D T d0 print b (OMatrix m n A)) = Some (OMatrix m n A).
 Proof. exact (roundtrip_matrix D T d0 print parse parse_print). Qed.
 
+(* an np.ndarray that is not 2-way (a vector, a 3-way array, ...): shape and C-order listing *)
+Theorem C16_roundtrip_array : forall (b : Z) (s : shape) (c : list D), length c = size s -> length s <> 2 ->
+  import D T d0 parse b (export D T d0 print b (OArray s c)) = Some (OArray s c).
+Proof. exact (roundtrip_array D T d0 print parse parse_print). Qed.
+
 (* all kinds at once; pyttb's export_data is [export 1] and import_data's default is [import 1] *)
 Theorem C16_roundtrip : forall (b : Z) (o : obj D), wf_obj D o ->
   import D T d0 parse b (export D T d0 print b o) = Some o.
 Proof. exact (roundtrip D T d0 print parse parse_print). Qed.
+
+(* the file determines the object (no two admissible objects share a file) *)
+Theorem C16_export_injective : forall (b : Z) (o1 o2 : obj D), wf_obj D o1 -> wf_obj D o2 ->
+  export D T d0 print b o1 = export D T d0 print b o2 -> o1 = o2.
+Proof. exact (export_injective D T d0 print parse parse_print). Qed.
 
 (* a file written with base b is read correctly with index_base = b *)
 Theorem C16_index_base : forall (b : Z) (S : sparse D), wf_obj D (OSptensor S) ->
@@ -64,7 +74,9 @@ Print Assumptions C16_dense_layout.
 Print Assumptions C16_roundtrip_sptensor.
 Print Assumptions C16_roundtrip_ktensor.
 Print Assumptions C16_roundtrip_matrix.
+Print Assumptions C16_roundtrip_array.
 Print Assumptions C16_roundtrip.
+Print Assumptions C16_export_injective.
 Print Assumptions C16_index_base.
 Print Assumptions C16_one_based.
 
